@@ -122,7 +122,7 @@ Step ==
   /\ LET e == Rec[l] IN
      /\ "panic" \notin DOMAIN e /\ "inexact" \notin DOMAIN e
      /\ EventOK(e)
-     /\ (IF e.ev = "h_hash" /\ HashDrift(e) THEN PrintT(<<"DRIFT", l>>) ELSE TRUE)
+     /\ (IF e.ev = "h_hash" /\ "nol2" \notin DOMAIN e /\ HashDrift(e) THEN PrintT(<<"DRIFT", l>>) ELSE TRUE)
      /\ hcnf' = IF e.ev = "h_new" THEN e.cnf ELSE hcnf
      /\ pmA' = IF e.ev \in {"pm_new", "pm_set", "pm_unset"} THEN e.a ELSE pmA
      /\ pmB' = IF e.ev = "pm_new" THEN e.b ELSE pmB
